@@ -47,13 +47,12 @@ def fits : List (String × String) := [
   ("Watson_FoF", "self.lnsigma > -0.55")
 ]
 def massFunction : List (String × String) := [
+  ("MassFunction", "_1 > 0.0"),
+  ("MassFunction", "_1 > 10.0"),
   ("MassFunction", "_1[-1] < 3.162277660168379e+16"),
-  ("MassFunction", "dndm > 0.0"),
-  ("MassFunction", "dndm[-1] == 0.0"),
+  ("MassFunction", "_1[-1] == 0.0"),
   ("MassFunction", "self.nu.max() < 1.0"),
-  ("MassFunction", "self.nu.min() > 1.0"),
-  ("MassFunction", "val > 0.0"),
-  ("MassFunction", "val > 10.0")
+  ("MassFunction", "self.nu.min() > 1.0")
 ]
 def sample : List (String × String) := [
   ("", "_1 == 0.0"),
@@ -63,29 +62,29 @@ def sample : List (String × String) := [
 ]
 def transferModels : List (String × String) := [
   ("CAMB", "self.cosmo.Tcmb0.value == 0.0"),
-  ("FromFile", "abs((lnT[_1 + 1] - lnT[_1]) / (lnk[_1 + 1] - lnk[_1])) < 0.0001")
+  ("FromFile", "abs((_1[_2 + 1] - _1[_2]) / (_3[_2 + 1] - _3[_2])) < 0.0001")
 ]
 def filters : List (String × String) := [
-  ("SharpK", "kr == 1.0"),
-  ("SharpK", "kr > 1.0"),
-  ("TopHat", "kr > 0.001"),
-  ("TopHat", "kr > 1.4e-06")
+  ("SharpK", "_1 == 1.0"),
+  ("SharpK", "_1 > 1.0"),
+  ("TopHat", "_1 > 0.001"),
+  ("TopHat", "_1 > 1.4e-06")
 ]
 def halofit : List (String × String) := [
-  ("", "k > 0.005"),
+  ("", "_1 > 0.005"),
   ("", "np.abs(1 - _1) > 0.01")
 ]
 def transfer : List (String × String) := [
+  ("Transfer", "_1 < -3.0"),
+  ("Transfer", "_1 < 0.0"),
+  ("Transfer", "_1 < 0.1"),
+  ("Transfer", "_1 > 10.0"),
+  ("Transfer", "_1 > 4.0"),
   ("Transfer", "self.lnk_max < 9.0"),
-  ("Transfer", "self.lnk_min > -15.0"),
-  ("Transfer", "val < -3.0"),
-  ("Transfer", "val < 0.0"),
-  ("Transfer", "val < 0.1"),
-  ("Transfer", "val > 10.0"),
-  ("Transfer", "val > 4.0")
+  ("Transfer", "self.lnk_min > -15.0")
 ]
 def wdm : List (String × String) := [
-  ("TransferWDM", "val > 0.0")
+  ("TransferWDM", "_1 > 0.0")
 ]
 def mdef : List (String × String) := [
 
